@@ -44,7 +44,8 @@ def run(tier, seed):
     bpath = os.path.join(wd, "behaviours.ndjson")
     vlib.write_ndjson(bpath, beh)
     tpath = os.path.join(wd, "trace.ndjson")
-    summ = vlib.harness(["c18", "--behaviours", bpath, "--out", tpath, "--bulk", 300 if quick else 1500], timeout=1200)
+    summ = vlib.harness(["c18", "--behaviours", bpath, "--out", tpath, "--bulk", 300 if quick else 1500, "--seed", seed,
+                                 "--random-runs", 10 if quick else 100, "--random-steps", 12000], timeout=2400)
     states, n_runs, rej = vlib.validate_runs("C18", "BtpTrace.tla", "BtpTrace.cfg", tpath)
     for r in rej:
         ck.violation(signature(r), "real BTP ends: event %s (no. %d of its run) is not allowed by Layer P" % (json.dumps(r["event"]), r["at"]),
